@@ -199,25 +199,39 @@ def main(argv):
 
     # ---- native probe (bounded): environment facts assumed by the model + definition histories on the real builder
     probe_summary = None
-    if prop.get('native_probe'):
+    probes = prop.get('native_probe') or []
+    if isinstance(probes, str):
+        probes = [probes]
+    for probe_name in probes:
         try:
-            pr = subprocess.run(['/venv/bin/python', os.path.join(ROOT, 'pyvc', prop['native_probe'] + '.py'), extract.REPO,
+            pr = subprocess.run(['/venv/bin/python', os.path.join(ROOT, 'pyvc', probe_name + '.py'), extract.REPO,
                                  str(seed), '60' if tier == 'quick' else '600'],
                                 capture_output=True, text=True, timeout=1800)
             pd = json.loads(pr.stdout.strip().splitlines()[-1])
         except Exception as e:
             pd = dict(facts={}, scenarios=[], failures=[dict(part='A', error='probe did not run: %r' % (e,))])
-        probe_summary = dict(environment_facts=pd.get('facts', {}), histories=len(pd.get('scenarios', [])),
-                             histories_ok=sum(1 for s_ in pd.get('scenarios', []) if s_.get('ok')))
+        one = dict(probe=probe_name, environment_facts=pd.get('facts', {}), histories=len(pd.get('scenarios', [])),
+                   histories_ok=sum(1 for s_ in pd.get('scenarios', []) if s_.get('ok')),
+                   scenarios=[s_.get('history') for s_ in pd.get('scenarios', [])][:40])
+        if probe_summary is None:
+            probe_summary = one
+        else:
+            probe_summary.setdefault('more', []).append(one)
         for f in pd.get('failures', []):
             if f.get('part') == 'A':
-                # the environment model disagrees with CPython: nothing proved under it can be believed
+                # the environment model disagrees with CPython (or the probe did not run): nothing can be concluded from it
                 undecided.append(dict(obligation='environment-contract/%s' % f.get('fact', 'probe'), kind='env-probe',
                                       clause='assumed environment fact does not hold natively: %r' % (f,), solver_result='native',
                                       solver_output='', function=prop['functions'][0]))
+            elif f.get('step'):
+                # a postcondition of a class-builder step (run-time contract on the real method, bounded corpus)
+                fn_ = 'packet_builder:PacketClassBuilder.' + f['step']
+                violations.append(dict(obligation='%s/post(bounded)/%s' % (fn_, f.get('clause', '?').replace(' ', '_')[:120]),
+                                       kind='twin', clause=f.get('clause', ''), solver_result='concrete execution', solver_output='',
+                                       function=fn_, function_changed_since_baseline=False, twin_input=f))
             else:
                 violations.append(dict(obligation='%s/native-history/%s' % (prop['functions'][0], f.get('history', '?').replace(' ', '_')),
-                                       kind='twin', clause='after this history of definitions the class does not behave per its own declaration',
+                                       kind='twin', clause=f.get('clause', 'after this history of definitions the class does not behave per its own declaration'),
                                        solver_result='concrete execution', solver_output='', function=prop['functions'][0],
                                        function_changed_since_baseline=False, twin_input=f))
 
